@@ -388,6 +388,11 @@ func cmdCheck(args []string) int {
 		case premiseKind[o.Kind] && (roots[o.Func] || callees[o.Func]):
 			o.Props = append(append([]string(nil), o.Props...), *prop)
 			obls = append(obls, o)
+		case roots[o.Func] && (o.Kind == "post" || o.Kind == "step" || o.Kind == "lemma"):
+			// a function that carries a clause of this property is checked against its WHOLE functional contract: its
+			// clauses describe one behaviour, and tagging each of them with every property it bears on proved error-prone
+			o.Props = append(append([]string(nil), o.Props...), *prop)
+			obls = append(obls, o)
 		case o.Kind == "post" && callees[o.Func]:
 			o.Props = append(append([]string(nil), o.Props...), *prop)
 			obls = append(obls, o)
